@@ -84,7 +84,7 @@ def run_isolated(sid, tier='quick', seeds=(0,)):
     meta = json.load(open(os.path.join(dst, 'meta.json')))
     base = '/tmp/mut_eval'
     os.makedirs(base, exist_ok=True)
-    vcopy = os.path.join(base, 'verif')
+    vcopy = os.path.join(base, 'verif_%d' % os.getpid())     # one copy per run: runs may overlap
     sh(['rsync', '-a', '--delete', '--exclude', '.git', '--exclude', 'replays',
         VERIF + '/', vcopy + '/'])
     wt = os.path.join(base, 'repo_%s_%d' % (sid, os.getpid()))
@@ -118,6 +118,7 @@ def run_isolated(sid, tier='quick', seeds=(0,)):
     finally:
         sh(['git', '-C', REPO, 'worktree', 'remove', '--force', wt])
         shutil.rmtree(wt, ignore_errors=True)
+        shutil.rmtree(vcopy, ignore_errors=True)
         json.dump(meta, open(os.path.join(dst, 'meta.json'), 'w'), indent=1)
 
 
